@@ -566,7 +566,9 @@ class FilesParagraph(deb822.RestrictedWrapper):
         pat = self.files_pattern()
         if pat is None:
             return False
-        return pat.match(filename) is not None
+        # Each alternative must match the entire name: in "a|b\Z" only the last
+        # alternative is anchored at the end.
+        return pat.fullmatch(filename) is not None
 
     files = deb822.RestrictedField(
         'Files', from_str=_SpaceSeparated.from_str,
